@@ -206,7 +206,76 @@ def run(eng, run):
     for name in ("lowlevel.api_async.transports.utils:aclose_forcefully", "lowlevel.api_sync.transports.socket:_close_stream_socket"):
         f = db.fn(name)
         check_close_path(eng, run, registry, f, tracked=[f.params()[0].arg])
+    check_close_vs_reader(eng, run)
+    check_connector_cancel(eng, run)
     check_twice(eng, run, registry)
+
+
+def _entered_guards(fn) -> set[str]:
+    out = set()
+    for n in own_nodes(fn.node):
+        cands = []
+        if isinstance(n, (ast.With, ast.AsyncWith)):
+            cands += [it.context_expr for it in n.items]
+        if isinstance(n, ast.Call) and isinstance(n.func, ast.Attribute) and n.func.attr in ("enter_context", "enter_async_context") and n.args:
+            cands.append(n.args[0])
+        for ce in cands:
+            if isinstance(ce, ast.Call) and (dotted(ce.func) or "").endswith("lock_with_timeout") and ce.args:
+                ce = ce.args[0]
+            d = dotted(ce) or (dotted(ce.func.value) if isinstance(ce, ast.Call) and isinstance(ce.func, ast.Attribute) and ce.func.attr == "get" and not ce.args else None)
+            if d and fn.self_name and d.startswith(fn.self_name + ".") and any(w in d.lower() for w in ("guard", "lock")):
+                out.add(d.split(".", 1)[1])
+    return out
+
+
+def check_close_vs_reader(eng, run):
+    """closing is how a parked reader is stopped: close()/aclose() never takes a guard or lock that a receive method of the same class
+    holds while it waits for the peer (a ResourceGuard would raise BusyResourceError before the transport is closed, a lock would block
+    until data arrives)"""
+    n = 0
+    for ci in eng.db.classes.values():
+        if not ci.module.name.startswith("easynetwork."):
+            continue
+        closes = [m for m in ci.methods.values() if m.name in ("close", "aclose") and not isinstance(m.node, ast.Lambda)]
+        recvs = [m for m in ci.methods.values() if m.name.startswith(("recv", "receive")) and not isinstance(m.node, ast.Lambda)]
+        if not closes or not recvs:
+            continue
+        held_by_readers = set().union(*[_entered_guards(m) for m in recvs])
+        if not held_by_readers:
+            continue
+        for c in closes:
+            n += 1
+            common = _entered_guards(c) & held_by_readers
+            if common:
+                run.finding("C14.own", c, c.node, f"{c.name}() takes {sorted(common)}, which the receive methods of {ci.name} hold while they wait for data: closing while a reader is parked "
+                            "fails (BusyResourceError) or blocks before the underlying transport is closed - the socket stays open")
+            run.ob("C14.own", f"{ci.name}.{c.name}:not-behind-a-parked-reader", not common, reader_guards=sorted(held_by_readers))
+    run.floor("C14.own close methods of classes with guarded receive methods", n, 6)
+
+
+def check_connector_cancel(eng, run):
+    """AsyncTCPNetworkClient.aclose(): the pending connection attempt is cancelled before the first suspension point of aclose() - a
+    close that is itself cancelled while it waits (send lock) must already have stopped the connect - and the connector stays
+    registered while the race is awaited (rule shared with C19)"""
+    from sa.analyses.atomic import AtomicSection
+    from rules import c19
+    from sa.report import RuleAlias
+    ci = eng.db.cls("clients.async_tcp.AsyncTCPNetworkClient")
+    ac = ci.methods.get("aclose")
+    if ac is None:
+        raise AnalysisError("anchor vanished: AsyncTCPNetworkClient.aclose")
+    an = AtomicSection(eng, None, lambda node: isinstance(node, ast.Call) and isinstance(node.func, ast.Attribute) and node.func.attr == "cancel" and "connector" in (dotted(node.func.value) or ""),
+                       armed_at_entry=True)
+    Interp(an, ac).run()
+    if not an.ends:
+        raise AnalysisError("anchor vanished: connector scope cancel in AsyncTCPNetworkClient.aclose")
+    ok = all(st == "armed" for _, st in an.ends)
+    if not ok:
+        late = next((node for node, st in an.ends if st != "armed"), None)
+        run.finding("C14.own", ac, _stmt_at(ac, late.lineno) if late is not None else ac.node, "aclose() can suspend (and be cancelled) before it cancels the pending connection attempt: "
+                    "a close cancelled at that point leaves the connect running - it completes, the client ends up connected and its socket is never closed")
+    run.ob("C14.own", f"{ac.short}:connector-cancelled-before-first-suspension", ok)
+    c19.check_registered(eng, RuleAlias(run, "C14.own"))
 
 
 def check_twice(eng, run, registry):
@@ -340,4 +409,23 @@ BENIGN = [
             lambda fn: (insert_before(fn, stmt_is("try:"), "close_waiter = asyncio.shield(self.__protocol._get_close_waiter())", 1),
                         replace_expr(fn, "asyncio.shield(self.__protocol._get_close_waiter())", "close_waiter", nth=1)),
             why="the shielded waiter is computed into a local first"),
+]
+
+
+_EPC = "lowlevel.api_async.endpoints.stream:AsyncStreamEndpoint.aclose"
+_CLA = "clients.async_tcp:AsyncTCPNetworkClient.aclose"
+
+
+def _cancel_inside_lock(fn):
+    iff = next(st for st in fn.body if isinstance(st, ast.If) and "socket_connector" in ast.unparse(st.test))
+    w = next(st for st in fn.body if isinstance(st, ast.AsyncWith))
+    fn.body.remove(iff)
+    w.body.insert(0, iff)
+
+
+MUTANTS += [
+    Variant("endpoint-close-takes-the-receive-guard", _EPC, lambda fn: replace_expr(fn, "self.__send_guard", "self.__recv_guard"), "C14.own",
+            why="closing while a reader is parked raises BusyResourceError before the transport is closed (seed C14-8)"),
+    Variant("client-close-cancels-the-connector-under-the-send-lock", _CLA, _cancel_inside_lock, "C14.own",
+            why="a close cancelled while it waits for the send lock leaves the connect running (seed C14-9)"),
 ]
